@@ -26,7 +26,9 @@ Kinds     == CASE KindMode = "full" -> FullKinds [] KindMode = "core" -> CoreKin
 
 GoldChoices(c) == {[gold |-> "arch", g |-> i] : i \in ArchG} \cup {[gold |-> "run", g |-> c], [gold |-> "run", g |-> OldIdx]}
 SlotsFor(c) == {[src |-> kd[1], cmp |-> kd[2], c |-> c, gold |-> gc.gold, g |-> gc.g] : kd \in Kinds, gc \in GoldChoices(c)}
-SlotDomain  == {s \in UNION {SlotsFor(c) : c \in Cs} : SlotOK(s)}
+\* a few comparisons through a symbolic link to a (stale) golden entry: the link is not an archive file, the run fails
+LinkSlots   == {[src |-> "out", cmp |-> "cmp", c |-> c, gold |-> "link", g |-> OldIdx] : c \in Cs}
+SlotDomain  == {s \in (UNION {SlotsFor(c) : c \in Cs}) \cup LinkSlots : SlotOK(s)}
 
 VARIABLES by, sub, slots, o
 vars == <<by, sub, slots, o>>
